@@ -21,6 +21,9 @@ static void cc_native_fail(const char* m){ fprintf(stderr,"OBLIGATION-FAILED: %s
 #define CC_THROWS(c,m)   __CPROVER_assert((c), m)
 /* capacity of the container model: by default exceeding it is reported (the check's bound is too small);
    with -DCC_CAP_ASSUME paths that outgrow the model are cut instead (for code that grows a container without bound) */
+#ifndef CC_POOL
+#define CC_POOL 8   /* objects per allocation pool (make_shared / make_unique of repository records) */
+#endif
 #ifdef CC_SIZE_INV
 #define CC_SIZE_INV_ASSUME(c) __CPROVER_assume(c)
 #else
@@ -92,6 +95,10 @@ static inline sv_t sv_substr(sv_t s, size_t pos, size_t n){
     __CPROVER_assert(v->iter==0,"vector modified during range-for (iterator invalidation)"); \
     CC_CAP_CHECK(v->size < (CAP)); \
     v->data[v->size]=x; v->size=v->size+1; } \
+  static inline void NAME##_append_all(NAME* v, const NAME* src){ \
+    __CPROVER_assert(v->iter==0,"vector modified during range-for (iterator invalidation)"); \
+    CC_CAP_CHECK(v->size + src->size <= (CAP)); \
+    size_t n0_ = v->size; for(size_t k_=0;k_<(CAP);++k_){ if(k_<src->size && n0_+k_<(CAP)) v->data[n0_+k_]=src->data[k_]; } v->size = n0_ + src->size; } \
   static inline void NAME##_pop_back(NAME* v){ \
     __CPROVER_assert(v->iter==0,"vector modified during range-for (iterator invalidation)"); \
     __CPROVER_assert(v->size>0,"vector::pop_back on empty (UB)"); v->size=v->size-1; } \
